@@ -1,20 +1,17 @@
 SPECIFICATION HSpec
 CONSTANTS
   Ids = {1, 2, 3}
-  RecIds <- RecsIC
+  RecIds <- RecsOnlyGene
   RootId = 1
   PhenoId = 2
   Prefix = FALSE
-  WithExtras = TRUE
-  WithPairs = TRUE
+  WithExtras = FALSE
+  WithPairs = FALSE
   MaxFacts = 2
   EmitAll = TRUE
 INVARIANTS
-  LineageAgreesSmall
-  PathsWellFormed
-  ChildNodesSane
-  SimSymmetric
-  SimBounds
-  DistIsMin
+  LinkExact
+  Resolvable
+  UpClosed
   Emit
 CHECK_DEADLOCK FALSE
